@@ -240,12 +240,13 @@ def verify_module(modname, nproc=8):
         return pool.map(_job, jobs, chunksize=1)
 
 
-def lemma_report():
-    """The machine-checked lemmas of the sequence theory (pv/vc/lemmas.py) as a report of their own: one obligation per lemma."""
+def lemma_report(names=None, title='sequence-theory lemmas used as axioms by the verifier'):
+    """Machine-checked lemmas (pv/vc/lemmas.py) as a report of their own: one obligation per lemma.  Default: the lemmas of the
+    sequence theory; with `names`, the listed lemmas over verified contracts."""
     from .vc import lemmas
-    rep = FunctionReport('pv/vc/lemmas.py', 'sequence-theory lemmas used as axioms by the verifier')
+    rep = FunctionReport('pv/vc/lemmas.py', title)
     t0 = time.time()
-    for name, verdict, sec in lemmas.check_all():
+    for name, verdict, sec in (lemmas.check_all() if names is None else lemmas.check_all(tuple(names))):
         ob = S.Obligation('pv/vc/lemmas.py::%s' % name, [], None, function='pv/vc/lemmas.py', kind='lemma')
         ob.verdict = verdict if verdict in ('discharged', 'refuted') else 'unknown'
         ob.backend = 'z3-%s (quantified, MBQI/E-matching)' % z3.get_version_string()
